@@ -540,8 +540,13 @@ def make_case(rng, i):
     if sparse:
         files[N('template_ind.npy', 'templates.waveformsChannels.npy')] = F('int32', [nt, nloc], [c for _ in range(nt) for c in rng.sample(range(nc), nloc)])
         tags.append('sparse_templates')
-    w = rng.randrange(3)
-    if w:
+    w = rng.randrange(4)
+    if w == 3:
+        # only the inverse is stored: the whitening matrix defaults to the identity, the inverse is the file
+        diag = [rng.pick([.5, 2., 4.]) for _ in range(nc)]
+        files['whitening_mat_inv.npy'] = F('float64', [nc, nc], [1. / diag[a] if a == b else 0. for a in range(nc) for b in range(nc)])
+        tags.append('whitening_inv_file_only')
+    elif w:
         diag = [rng.pick([.5, 1., 2., 4.]) for _ in range(nc)]
         wmd = [diag[a] if a == b else 0. for a in range(nc) for b in range(nc)]
         if rng.random() < .2:
